@@ -34,6 +34,11 @@ type faultDB struct {
 	// streams as the model pops them: one bit per ExecContext of a body / of a RestoreFunc
 	fs, rs     []bool
 	body, rest int // calls seen so far
+	// open: Snapshot's inspection succeeded (its sqlite_master query was seen) and no statement of a
+	// RestoreFunc has been issued since. readOpen: its value when the last inspection of the
+	// tables began (tablesQuery) -- a failing read is a read *of the session* (after its
+	// statements) if the session was open then, otherwise it is Snapshot's own InspectRealm
+	open, readOpen bool
 }
 
 const (
@@ -53,6 +58,7 @@ func (f *faultDB) ExecContext(ctx context.Context, q string, args ...any) (sql.R
 	if restore {
 		fail = f.rest < len(f.rs) && f.rs[f.rest]
 		f.rest++
+		f.open = false
 	} else {
 		fail = f.body < len(f.fs) && f.fs[f.body]
 		f.body++
@@ -68,6 +74,14 @@ func (f *faultDB) ExecContext(ctx context.Context, q string, args ...any) (sql.R
 }
 
 func (f *faultDB) QueryContext(ctx context.Context, q string, args ...any) (*sql.Rows, error) {
+	f.mu.Lock()
+	switch {
+	case strings.Contains(q, "FROM sqlite_master WHERE `tbl_name` NOT LIKE"): // Driver.Snapshot's second check
+		f.open = true
+	case strings.Contains(q, "JOIN pragma_table_list(sqlite_master.name)"): // tablesQuery: an inspection begins
+		f.readOpen = f.open
+	}
+	f.mu.Unlock()
 	return f.db.QueryContext(ctx, q, args...)
 }
 
@@ -89,8 +103,11 @@ func (d noAddSchema) ApplyChanges(ctx context.Context, changes []schema.Change, 
 func hclSchema(ts []htable) *schema.Schema {
 	s := schema.New("main")
 	for _, t := range ts {
-		tb := schema.NewTable(t.name).
-			AddColumns(schema.NewIntColumn("id", "integer"), schema.NewNullStringColumn("v", "text"))
+		v := schema.NewNullStringColumn("v", "text")
+		if t.unins {
+			v = schema.NewNullStringColumn("v", unparsableType)
+		}
+		tb := schema.NewTable(t.name).AddColumns(schema.NewIntColumn("id", "integer"), v)
 		tb.SetPrimaryKey(schema.NewPrimaryKey(tb.Columns[0]))
 		for _, i := range t.idx {
 			tb.AddIndexes(schema.NewIndex(i.name).AddColumns(tb.Columns[1]))
@@ -161,7 +178,12 @@ func readSource(ctx context.Context, c *tcase, drv migrate.Driver, s source) (mi
 		if err != nil {
 			return nil, err
 		}
-		r, err := ex.Replay(ctx, migrate.RealmConn(drv, nil))
+		var sr migrate.StateReader = migrate.RealmConn(drv, nil)
+		if c.excl {
+			// as stateReaderSQL does for a dev URL bound to a schema (SQLite: always "main")
+			sr = migrate.SchemaConn(drv, "", &schema.InspectOptions{Exclude: []string{"["}})
+		}
+		r, err := ex.Replay(ctx, sr)
 		if err != nil && !errors.Is(err, migrate.ErrNoPendingFiles) {
 			return nil, err
 		}
@@ -293,7 +315,15 @@ func runAPI(c *tcase, tmpRoot string) (r result) {
 		r.outcome = "refused"
 	default:
 		r.output = nerr.Error()
-		if ms := markerRe.FindAllStringSubmatch(r.output, -1); len(ms) > 0 {
+		if inspectErrRe.MatchString(r.output) {
+			// no statement failed, a read of the state did (checked before the markers: the
+			// inspector quotes the CREATE statement, comment included)
+			if fdb.readOpen {
+				r.outcome = "ifail"
+			} else {
+				r.outcome = "snapfail"
+			}
+		} else if ms := markerRe.FindAllStringSubmatch(r.output, -1); len(ms) > 0 {
 			r.outcome = "fail:" + ms[0][1]
 		} else if errors.As(nerr, &ap) {
 			// a statement of the normalisation plan: map the plan position to its marker
@@ -359,7 +389,7 @@ func mkTables(spec [][]string, m0 int) []htable {
 	var ts []htable
 	for _, s := range spec {
 		m++
-		t := htable{m: m, name: s[0]}
+		t := htable{m: m, name: strings.TrimSuffix(s[0], "!"), unins: strings.HasSuffix(s[0], "!")}
 		for _, i := range s[1:] {
 			m++
 			t.idx = append(t.idx, hidx{m, i})
@@ -401,6 +431,10 @@ func genRunAPI(tier, tmpRoot string) ([]*tcase, []result) {
 		{{"t0", "i0"}, {"t0", "i1"}},                   // 2nd CREATE TABLE t0 fails (position 2)
 		{{"t0", "i0"}, {"t1"}, {"t2", "t1"}},           // index named like a table fails (position 4)
 		{{"t0", "t0"}},                                 // index named like its own table (position 1)
+		// "!": a column type SQLite accepts and the inspector cannot parse -> the inspection after ApplyChanges fails
+		{{"t0!", "i0"}, {"t1", "i1"}},
+		{{"t0", "i0"}, {"t1!"}},
+		{{"t0!", "i0"}, {"t1", "i0"}}, // ... unless a statement fails first (position 3)
 	}
 	// the bases: one per command shape; each is then run with a fault at every call
 	var bases []apiBase
@@ -487,6 +521,104 @@ func genRunAPI(tier, tmpRoot string) ([]*tcase, []result) {
 			return c
 		}},
 	)
+	// the exit "all statements succeeded, the read afterwards failed" for every command shape
+	setStmt := func(sc []mstmt, k int, st stmt) { sc[k].s = st }
+	for _, norm := range []string{"r", "s"} {
+		norm := norm
+		bases = append(bases,
+			apiBase{"diff-hcl-U-" + norm, func() *tcase {
+				m := 0
+				c := (&tcase{norm: norm, cmd: "diff", changes: true}).setStart(empty)
+				c.dir = baseDir(&m, "")
+				c.to = source{kind: "hcl", hcl: mkTables([][]string{{"t0", "i0"}, {"tz!", "iz"}}, 900)}
+				return c
+			}},
+			apiBase{"sdiff-hcl-hcl-Ufrom-" + norm, func() *tcase {
+				c := (&tcase{norm: norm, cmd: "sdiff"}).setStart(empty)
+				c.from = source{kind: "hcl", hcl: mkTables([][]string{{"t0!", "i0"}}, 800)}
+				c.to = source{kind: "hcl", hcl: mkTables([][]string{{"t0", "i0"}, {"t1"}}, 900)}
+				return c
+			}},
+			apiBase{"sdiff-hcl-hcl-Uto-" + norm, func() *tcase {
+				c := (&tcase{norm: norm, cmd: "sdiff"}).setStart(empty)
+				c.from = source{kind: "hcl", hcl: mkTables([][]string{{"t0", "i0"}}, 800)}
+				c.to = source{kind: "hcl", hcl: mkTables([][]string{{"t0", "i0"}, {"t1!"}}, 900)}
+				return c
+			}},
+			apiBase{"sinspect-hcl-U-" + norm, func() *tcase {
+				c := (&tcase{norm: norm, cmd: "sinspect"}).setStart(empty)
+				c.from = source{kind: "hcl", hcl: mkTables([][]string{{"t0", "i0"}, {"t1!", "i1"}}, 800)}
+				return c
+			}},
+		)
+	}
+	for _, shape := range []string{"", "ck"} {
+		shape := shape
+		bases = append(bases,
+			apiBase{"validate-U-" + shape, func() *tcase {
+				m := 0
+				c := (&tcase{norm: "0", cmd: "validate"}).setStart(empty)
+				c.dir = baseDir(&m, shape)
+				last := c.dir[len(c.dir)-1].stmts
+				setStmt(last, 0, stmt{"ctu", last[0].s.a, "gen"}) // t1 in both shapes
+				return c
+			}},
+			apiBase{"checkpoint-U-" + shape, func() *tcase {
+				m := 0
+				c := (&tcase{norm: "0", cmd: "checkpoint", changes: true}).setStart(empty)
+				c.dir = baseDir(&m, shape)
+				last := c.dir[len(c.dir)-1].stmts
+				setStmt(last, len(last)-1, stmt{"ciu", "iu", "t1"})
+				return c
+			}},
+		)
+	}
+	bases = append(bases,
+		apiBase{"diff-sql-Uto", func() *tcase {
+			m := 0
+			c := (&tcase{norm: "0", cmd: "diff", changes: true}).setStart(empty)
+			c.dir = baseDir(&m, "")
+			c.to = mkSource("sql", &m, "tz")
+			setStmt(c.to.sql, 2, stmt{"ctu", "tz", ""})
+			return c
+		}},
+		apiBase{"diff-sql-Udir", func() *tcase {
+			m := 0
+			c := (&tcase{norm: "0", cmd: "diff", changes: true}).setStart(empty)
+			c.dir = baseDir(&m, "")
+			setStmt(c.dir[0].stmts, 1, stmt{"ciu", "i0", "t0"})
+			c.to = mkSource("sql", &m, "tz")
+			return c
+		}},
+		apiBase{"sdiff-sdir-dir-U", func() *tcase {
+			m := 0
+			c := (&tcase{norm: "0", cmd: "sdiff"}).setStart(empty)
+			c.from = mkSource("sdir", &m, "tx")
+			c.to = mkSource("dir", &m, "tz")
+			last := c.to.dir[len(c.to.dir)-1].stmts
+			setStmt(last, 0, stmt{"ctu", "tz", ""})
+			return c
+		}},
+		apiBase{"sapply-sql-excl", func() *tcase {
+			m := 0
+			c := (&tcase{norm: "0", cmd: "sapply", excl: true}).setStart(empty)
+			c.to = mkSource("sql", &m, "tz")
+			return c
+		}},
+		apiBase{"sinspect-sdir-excl", func() *tcase {
+			m := 0
+			c := (&tcase{norm: "0", cmd: "sinspect", excl: true}).setStart(empty)
+			c.from = mkSource("sdir", &m, "tx")
+			return c
+		}},
+		apiBase{"sdiff-sql-sql-excl", func() *tcase {
+			m := 0
+			c := (&tcase{norm: "0", cmd: "sdiff", excl: true}).setStart(empty)
+			c.from = mkSource("sql", &m, "tx")
+			c.to = mkSource("sql", &m, "tz")
+			return c
+		}},
+	)
 	// 1. every base x every start state, no injected fault (quick: the shapes that open a
 	//    normalisation session, the others are covered by the cli stage)
 	for _, b := range bases {
@@ -535,7 +667,7 @@ func genRunAPI(tier, tmpRoot string) ([]*tcase, []result) {
 		var sp [][]string
 		nt := 1 + r.Intn(3)
 		for t := 0; t < nt; t++ {
-			row := []string{rng.Pick(r, []string{"t0", "t1", "t2", "t3"})}
+			row := []string{rng.Pick(r, []string{"t0", "t1", "t2", "t3", "t1!", "t2!"})}
 			ni := r.Intn(3)
 			for k := 0; k < ni; k++ {
 				row = append(row, rng.Pick(r, []string{"i0", "i1", "i2", "i3", "t1"}))
